@@ -82,6 +82,134 @@ Proof.
   intros devs port a H. unfold skip, make_device_map. rewrite fold_map_add_none by exact H. reflexivity.
 Qed.
 
+(* ---------- one probe against a script ---------- *)
+Lemma opt_min_some_r : forall a y, exists m, opt_min a (Some y) = Some m /\ m <= y.
+Proof. intros [x|] y; cbn; eexists; (split; [reflexivity|lia]). Qed.
+Lemma opt_min_some_l : forall x b, exists m, opt_min (Some x) b = Some m /\ m <= x.
+Proof. intros x [y|]; cbn; eexists; (split; [reflexivity|lia]). Qed.
+
+Lemma step_until_some : forall a t l,
+  match step_until a t (Some l) with
+  | inl (u, _) => u <= l
+  | inr o => o = Some (N.max t l)
+  end.
+Proof.
+  intros [d ok|] t l; cbn; [|reflexivity].
+  destruct (t + d <=? l) eqn:E; [apply N.leb_le in E; exact E|reflexivity].
+Qed.
+
+(* with a read deadline Connect's own part ends within three deadlines, whatever the host does *)
+Lemma connect_phase_bounded : forall r s t0 tc,
+  match connect_phase (Some r) true s t0 tc with
+  | ConnFail t => exists v, t = Some v /\ v <= t0 + 3 * r
+  | ConnReady t2 => t2 <= t0 + 3 * r
+  end.
+Proof.
+  intros r s t0 tc. unfold connect_phase. cbn [opt_add opt_min].
+  pose proof (step_until_some (s_hello s) t0 (t0 + r)) as H1.
+  destruct (step_until (s_hello s) t0 (Some (t0 + r))) as [[t1 [|]]|o].
+  2: { exists t1. split; [reflexivity|lia]. }
+  2: { subst o. eexists. split; [reflexivity|lia]. }
+  pose proof (step_until_some (s_version s) t1 (N.min (t1 + r) tc)) as H2.
+  destruct (step_until (s_version s) t1 (Some (N.min (t1 + r) tc))) as [[tv [|]]|o].
+  2: { exists tv. split; [reflexivity|lia]. }
+  2: { subst o. eexists. split; [reflexivity|lia]. }
+  destruct (s_setver s) as [a|]; [|lia].
+  pose proof (step_until_some a tv (N.min (tv + r) tc)) as H3.
+  destruct (step_until a tv (Some (N.min (tv + r) tc))) as [[t2 [|]]|o].
+  - lia.
+  - exists t2. split; [reflexivity|lia].
+  - subst o. eexists. split; [reflexivity|lia].
+Qed.
+
+Lemma ask_lt : forall a t tc u ok, ask a t tc = Some (u, ok) -> u < tc.
+Proof.
+  intros [d o|] t tc u ok; unfold ask; destruct (tc <=? t); try discriminate.
+  destruct (t + d <? tc) eqn:E; [|discriminate]. intros H. inversion H; subst. apply N.ltb_lt. exact E.
+Qed.
+
+(* with the forced Close the request goroutine always closes the client, by the end of its context *)
+Lemma shutdown_closes : forall s t tc arr gi gc,
+  exists x, e_close (shutdown true s t tc arr gi gc) = Some x /\ x <= N.max t tc.
+Proof.
+  intros s t tc arr gi gc. unfold shutdown.
+  destruct (ask (s_close s) t tc) as [[u [|]]|] eqn:E; cbn [e_close].
+  - exists u. split; [reflexivity|]. apply ask_lt in E. lia.
+  - exists u. split; [reflexivity|]. apply ask_lt in E. lia.
+  - eexists. split; [reflexivity|lia].
+Qed.
+
+Lemma exchange_closes : forall s t2 tc,
+  exists x, e_close (exchange true s t2 tc) = Some x /\ x <= N.max t2 tc.
+Proof.
+  intros s t2 tc. unfold exchange.
+  destruct (ask (s_config s) t2 tc) as [[u [|]]|] eqn:E1.
+  - apply ask_lt in E1.
+    destruct (ask (s_caps s) u tc) as [[w [|]]|] eqn:E2.
+    + apply ask_lt in E2. destruct (shutdown_closes s w tc [w; u] true true) as (x & Hx & Hle).
+      exists x. split; [exact Hx|lia].
+    + apply ask_lt in E2. destruct (shutdown_closes s w tc [w; u] true false) as (x & Hx & Hle).
+      exists x. split; [exact Hx|lia].
+    + destruct (shutdown_closes s (N.max u tc) tc (late_arrival (s_caps s) u tc ++ [u]) true false) as (x & Hx & Hle).
+      exists x. split; [exact Hx|lia].
+  - apply ask_lt in E1. destruct (shutdown_closes s u tc [u] false false) as (x & Hx & Hle).
+    exists x. split; [exact Hx|lia].
+  - destruct (shutdown_closes s (N.max t2 tc) tc (late_arrival (s_config s) t2 tc) false false) as (x & Hx & Hle).
+    exists x. split; [exact Hx|lia].
+Qed.
+
+(* THE BOUND FOR ALL SCRIPTS: with a read deadline and the forced Close after a failed Shutdown, a probe
+   returns within the allowance — whatever the host answers, whenever, and whatever it sends unasked *)
+Lemma script_time_bounded : forall tm r s,
+  read_deadline tm = Some r -> force_close tm = true ->
+  exists d, o_time (script_outcome tm s) = Some d /\ d <= allowance tm.
+Proof.
+  intros tm r s Hr Hf. unfold allowance, script_outcome. rewrite Hr, Hf.
+  destruct (s_dial s) as [| |d0]; cbn [o_time].
+  - exists 0. split; [reflexivity|lia].
+  - exists (dial tm). split; [reflexivity|lia].
+  - destruct (dial tm <? d0) eqn:Ed; cbn [o_time].
+    { exists (dial tm). split; [reflexivity|lia]. }
+    apply N.ltb_ge in Ed.
+    pose proof (connect_phase_bounded r s d0 (d0 + send_timeout tm)) as Hc.
+    destruct (connect_phase (Some r) true s d0 (d0 + send_timeout tm)) as [t|t2]; cbn [o_time].
+    + destruct Hc as (v & -> & Hv).
+      destruct (opt_min_some_l v (opt_add d0 (s_hangup s))) as (m & Hm & Hle).
+      exists m. split; [exact Hm|lia].
+    + destruct (exchange_closes s t2 (d0 + send_timeout tm)) as (x & Hx & Hxle). rewrite Hx.
+      match goal with |- context [opt_ltb ?dd x] => set (dead := dd) end.
+      destruct (opt_ltb dead x) eqn:El; cbn [o_time].
+      * destruct dead as [l|]; [|discriminate]. cbn in El. apply N.ltb_lt in El.
+        exists l. split; [reflexivity|lia].
+      * cbn [opt_add].
+        match goal with |- context [opt_min ?a (Some (x + r))] => destruct (opt_min_some_r a (x + r)) as (m & Hm & Hle) end.
+        exists m. split; [exact Hm|lia].
+Qed.
+
+(* WITHOUT the forced Close: a host that answers everything, refuses CLOSE_CONNECTION and keeps sending
+   KeepAlives more often than the read deadline blocks the probe for ever *)
+Definition chatty_refuser (p : N) : script :=
+  mk_script (DialAccept 0) (Ans 0 true) (Ans 0 true) None (Ans 0 true) (Some (0, [0; 22; 37])) (Ans 0 true) None
+            (Ans 0 false) false false None [] (Some p).
+
+Lemma chatty_refuser_blocks : forall tm r p,
+  read_deadline tm = Some r -> force_close tm = false -> 0 < send_timeout tm -> 0 < p -> p <= r ->
+  o_time (script_outcome tm (chatty_refuser p)) = None.
+Proof.
+  intros tm r p Hr Hf Hs Hp Hpr. unfold script_outcome. rewrite Hr, Hf. unfold chatty_refuser. cbn [s_dial].
+  assert (E0 : dial tm <? 0 = false) by (apply N.ltb_ge; lia). rewrite E0.
+  assert (E1 : 0 <=? r = true) by (apply N.leb_le; lia).
+  assert (E2 : send_timeout tm <=? 0 = false) by (apply N.leb_gt; exact Hs).
+  assert (E3 : 0 <? send_timeout tm = true) by (apply N.ltb_lt; exact Hs).
+  assert (E4 : 0 <? p = true) by (apply N.ltb_lt; exact Hp).
+  assert (E5 : p <=? r = true) by (apply N.leb_le; exact Hpr).
+  unfold connect_phase, exchange, shutdown, ask, reader_death, chatty.
+  repeat (progress (cbn [ask s_hello s_version s_setver s_config s_caps s_close s_close_other s_chat s_period s_hangup
+                         step_until opt_add opt_min opt_le opt_ltb e_close e_rclosed e_arrivals andb];
+                    rewrite ?N.add_0_l, ?N.add_0_r, ?E1, ?E2, ?E3, ?E4, ?E5)).
+  reflexivity.
+Qed.
+
 (* ---------- worker invariants ---------- *)
 Section Worker.
   Variable tm : timers.
@@ -112,7 +240,7 @@ Section Worker.
 
   Definition reported_ok (seen : list N) (st : wstate) : Prop :=
     forall a i, In (a, i) (reported st) ->
-      In a seen /\ skip m port a = false /\ probe_result (hosts a) = Some i.
+      In a seen /\ skip m port a = false /\ probe_result tm (hosts a) = Some i.
 
   Lemma step_reported_ok : forall seen st a, reported_ok seen st -> reported_ok (seen ++ [a]) (step st a).
   Proof.
@@ -126,7 +254,7 @@ Section Worker.
     destruct (dl <=? t); [exact W|].
     destruct (skip m port a) eqn:Es; [exact W|].
     destruct (probe_time tm (hosts a)); [|exact W].
-    destruct (probe_result (hosts a)) as [i0|] eqn:Ep; [|exact W].
+    destruct (probe_result tm (hosts a)) as [i0|] eqn:Ep; [|exact W].
     intros x i [E|Hx]; [|apply W; exact Hx].
     inversion E; subst. repeat split; try assumption. apply in_or_app. right. left. reflexivity.
   Qed.
@@ -197,23 +325,69 @@ Proof.
   specialize (P a Hin). rewrite skip_registered_up in P by assumption. discriminate.
 Qed.
 
+Lemma ask_ans : forall a t tc u ok, ask a t tc = Some (u, ok) -> exists d, a = Ans d ok.
+Proof.
+  intros [d o|] t tc u ok; unfold ask; destruct (tc <=? t); try discriminate.
+  destruct (t + d <? tc); [|discriminate]. intros H. inversion H; subst. exists d. reflexivity.
+Qed.
+Lemma shutdown_ident : forall fc s t tc arr gi gc, e_ident (shutdown fc s t tc arr gi gc) = gi.
+Proof. intros. unfold shutdown. destruct (ask (s_close s) t tc) as [[u [|]]|]; reflexivity. Qed.
+Lemma exchange_ident : forall fc s t2 tc, e_ident (exchange fc s t2 tc) = true -> exists d, s_config s = Ans d true.
+Proof.
+  intros fc s t2 tc. unfold exchange.
+  destruct (ask (s_config s) t2 tc) as [[u [|]]|] eqn:E.
+  - intros _. exact (ask_ans _ _ _ _ _ E).
+  - rewrite shutdown_ident. discriminate.
+  - rewrite shutdown_ident. discriminate.
+Qed.
+
+(* what a script's probe returns was built from the Identification the script sent in a positive
+   answer to GET_READER_CONFIG, and from its capabilities or none *)
+Lemma script_info_identified : forall tm s i,
+  o_info (script_outcome tm s) = Some i ->
+  exists c t rid, s_ident s = Some (t, rid) /\ (exists d, s_config s = Ans d true) /\
+    (c = s_capsv s \/ c = None) /\ probe_info c (Some (t, rid)) = Some i.
+Proof.
+  intros tm s i. unfold script_outcome.
+  destruct (s_dial s) as [| |d0]; cbn [o_info]; try discriminate.
+  destruct (dial tm <? d0); cbn [o_info]; try discriminate.
+  destruct (connect_phase _ _ _ _ _) as [t|t2]; cbn [o_info]; try discriminate.
+  set (tc := d0 + send_timeout tm).
+  destruct (e_close (exchange (force_close tm) s t2 tc)) as [x|]; cbn [o_info]; try discriminate.
+  destruct (opt_ltb _ x); cbn [o_info]; try discriminate.
+  destruct (e_ident (exchange (force_close tm) s t2 tc)) eqn:Ei; try discriminate.
+  intros H.
+  pose proof (exchange_ident _ _ _ _ Ei) as Hc.
+  destruct (s_ident s) as [[t rid]|] eqn:Eid.
+  - exists (if e_caps (exchange (force_close tm) s t2 tc) then s_capsv s else None), t, rid.
+    split; [reflexivity|]. split; [exact Hc|]. split; [|exact H].
+    destruct (e_caps _); [left|right]; reflexivity.
+  - rewrite probe_info_none in H. discriminate.
+Qed.
+
 Lemma only_identified_reported : forall tm dl m port hosts work a i,
   In (a, i) (run_reported tm dl m port hosts work) ->
   In a (concat work) /\ skip m port a = false /\
   exists c t rid,
-    (hosts a = Answer c (Some (t, rid)) \/ hosts a = AnswerNoClose c (Some (t, rid))) /\
+    (hosts a = Answer c (Some (t, rid)) \/ hosts a = AnswerNoClose c (Some (t, rid)) \/
+     exists s, hosts a = Script s /\ s_ident s = Some (t, rid) /\ (exists d, s_config s = Ans d true) /\
+               (c = s_capsv s \/ c = None)) /\
     probe_info c (Some (t, rid)) = Some i.
 Proof.
   intros tm dl m port hosts work a i Hin.
   unfold run_reported in Hin. apply in_flat_map in Hin. destruct Hin as (addrs & Hw & Hin).
-  assert (R : reported_ok m port hosts ([] ++ addrs) (worker_run tm dl m port hosts addrs 0)).
+  assert (R : reported_ok tm m port hosts ([] ++ addrs) (worker_run tm dl m port hosts addrs 0)).
   { unfold worker_run. apply run_reported_ok. intros x y []. }
   destruct (R a i Hin) as (H1 & H2 & H3). cbn [app] in H1.
   split; [apply in_concat; exists addrs; split; assumption|]. split; [exact H2|].
   unfold probe_result in H3.
-  destruct (hosts a) as [| | | | | |c id|c id] eqn:Eh; try discriminate;
-    (destruct id as [[t rid]|]; [|rewrite probe_info_none in H3; discriminate]);
-    exists c, t, rid; (split; [tauto|exact H3]).
+  destruct (hosts a) as [s| | | | | | |c id|c id] eqn:Eh; try discriminate.
+  - destruct (script_info_identified tm s i H3) as (c & t & rid & Hid & Hc & Hcc & Hp).
+    exists c, t, rid. split; [|exact Hp]. right. right. exists s. repeat split; assumption.
+  - destruct id as [[t rid]|]; [|rewrite probe_info_none in H3; discriminate].
+    exists c, t, rid. split; [tauto|exact H3].
+  - destruct id as [[t rid]|]; [|rewrite probe_info_none in H3; discriminate].
+    exists c, t, rid. split; [tauto|exact H3].
 Qed.
 
 Lemma fold_max_opt_bounded : forall (l : list (option N)) acc B,
@@ -244,17 +418,32 @@ Proof.
     exists 0. split; [reflexivity|lia].
 Qed.
 
-Lemma probe_time_bounded : forall tm r, read_deadline tm = Some r ->
+Lemma probe_time_bounded : forall tm r, read_deadline tm = Some r -> force_close tm = true ->
   forall b, exists d, probe_time tm b = Some d /\ d <= allowance tm.
 Proof.
-  intros tm r Hr b. unfold allowance, probe_time, min_opt. rewrite Hr.
-  destruct b; eexists; (split; [reflexivity|]); lia.
+  intros tm r Hr Hf b. destruct b as [s| | | | | | | |].
+  1: exact (script_time_bounded tm r s Hr Hf).
+  all: unfold allowance, probe_time, min_opt; rewrite Hr; eexists; (split; [reflexivity|]); lia.
 Qed.
 
-Lemma run_time_bounded : forall tm r dl m port hosts work, read_deadline tm = Some r ->
+Lemma run_time_bounded : forall tm r dl m port hosts work, read_deadline tm = Some r -> force_close tm = true ->
   exists t, run_time tm dl m port hosts work = Some t /\ t <= dl + allowance tm.
 Proof.
-  intros. apply run_time_bounded_gen. apply (probe_time_bounded tm r). assumption.
+  intros. apply run_time_bounded_gen. apply (probe_time_bounded tm r); assumption.
+Qed.
+
+(* with a read deadline but WITHOUT the forced Close after a failed Shutdown one chatty host that refuses
+   CLOSE_CONNECTION makes the run never return *)
+Lemma run_time_refuted_no_forced_close : forall tm r dl, read_deadline tm = Some r -> force_close tm = false ->
+  0 < r -> 0 < send_timeout tm -> 0 < dl ->
+  exists m port hosts work, run_time tm dl m port hosts work = None.
+Proof.
+  intros tm r dl Hr Hf Hr0 Hs Hdl.
+  exists (fun _ => None), 5084, (fun _ => Script (chatty_refuser 1)), [[1]].
+  unfold run_time, worker_run. cbn [fold_left]. unfold worker_step at 1. cbn [w_init stopped clock].
+  assert (E : dl <=? 0 = false) by (apply N.leb_gt; exact Hdl).
+  rewrite E. cbn [skip]. unfold probe_time.
+  rewrite (chatty_refuser_blocks tm r 1 Hr Hf Hs) by lia. reflexivity.
 Qed.
 
 (* without a read deadline (the code as it is) one silent host that is not skipped blocks the run *)
